@@ -112,8 +112,8 @@ def with_hour (dt : NaiveDT) (h : Int) := mapTime dt (dt.time.with_hour h)
 def with_minute (dt : NaiveDT) (m : Int) := mapTime dt (dt.time.with_minute m)
 def with_second (dt : NaiveDT) (s : Int) := mapTime dt (dt.time.with_second s)
 def with_nanosecond (dt : NaiveDT) (n : Int) := mapTime dt (dt.time.with_nanosecond n)
-def checked_add_days (dt : NaiveDT) (n : Int) := mapDate dt (Date.checked_add_days dt.date n)
-def checked_sub_days (dt : NaiveDT) (n : Int) := mapDate dt (Date.checked_sub_days dt.date n)
+def zchecked_add_days (dt : NaiveDT) (n : Int) := mapDate dt (Date.checked_add_days dt.date n)
+def zchecked_sub_days (dt : NaiveDT) (n : Int) := mapDate dt (Date.checked_sub_days dt.date n)
 def checked_add_months (dt : NaiveDT) (n : Nat) := mapDate dt (ZF.checked_add_months dt.date n)
 def checked_sub_months (dt : NaiveDT) (n : Nat) := mapDate dt (ZF.checked_sub_months dt.date n)
 /-- derived `Hash`: `write_i32(yof)`, `write_u32(secs)`, `write_u32(frac)` -/
@@ -174,7 +174,7 @@ def checked_add_days (z : Zoned) (n : Int) : Res (Option Zoned) :=
   if n = 0 then .ok (some z)
   else
     (overflowing_naive_local z).bind fun l =>
-    (l.checked_add_days n).bind fun r =>
+    (l.zchecked_add_days n).bind fun r =>
     match r with
     | none => .ok none
     | some nl =>
@@ -186,7 +186,7 @@ def checked_add_days (z : Zoned) (n : Int) : Res (Option Zoned) :=
 /-- `checked_sub_days`: no `Days(0)` short cut; keep only results `≥ MIN_UTC` -/
 def checked_sub_days (z : Zoned) (n : Int) : Res (Option Zoned) :=
   (overflowing_naive_local z).bind fun l =>
-  (l.checked_sub_days n).bind fun r =>
+  (l.zchecked_sub_days n).bind fun r =>
   match r with
   | none => .ok none
   | some nl =>
